@@ -220,3 +220,27 @@ func VerifEncodeLeave(id, addr string, d delta) []byte {
 	_ = enc.Encode(d)
 	return req.Bytes()
 }
+
+// VerifRawSection is one per-node section of a hand-built delta packet whose
+// announced entry count is independent of the entries that follow.
+type VerifRawSection struct {
+	ID, Addr string
+	Count    int
+	Entries  []Entry
+}
+
+// VerifEncodeDeltaRaw encodes a delta datagram with arbitrary announced counts.
+func VerifEncodeDeltaRaw(id, addr string, senderCount int, sections []VerifRawSection) []byte {
+	var buf bytes.Buffer
+	buf.WriteByte(byte(messageTypeDelta))
+	buf.WriteByte(supportedVersion)
+	enc := newEncoder(&buf)
+	_ = enc.Encode(&deltaHeader{NodeID: id, Addr: addr, Entries: senderCount})
+	for _, s := range sections {
+		_ = enc.Encode(&deltaHeader{NodeID: s.ID, Addr: s.Addr, Entries: s.Count})
+		for _, e := range s.Entries {
+			_ = enc.Encode(e)
+		}
+	}
+	return buf.Bytes()
+}
